@@ -114,7 +114,9 @@ PROPS["C08"] = {
   "assumptions": PERSIST_ASSUME,
 }
 PROPS["C09"] = {
-  "runs": [{"component": "persist", "labels": None, "n_quick": 1500, "n_thorough": 6000}],
+  # only the answers of Close (6), Reopen (7) and RangeKeys (8) steps are compared (incl. the Get/Has probes of every key
+  # printed with them): reads between flushes belong to C08
+  "runs": [{"component": "persist", "labels": None, "diff_ops": {6, 7, 8}, "n_quick": 1500, "n_thorough": 6000}],
   "anchors": ["leveldb/leveldb.go", "leveldb/leveldbSerial.go", "leveldb/common.go", "sharded/shardedDB.go"],
   "exhaustive_claim": True,
   "rule": "exhaustive: all sequences over {Put k v, Remove k (2 keys x 2 values), Close;Reopen;RangeKeys} of length 4 (MaxBatchSize 2, first op on key a or a cycle) and 3 (MaxBatchSize 3) for DB and SerialDB, length 3 for the sharded persister over each (thorough: 5 / 4); random as C08 with kinds DB, SerialDB, sharded over them and twice the cycle weight. After Reopen the monitor compares Get/Has of every key and RangeKeys with the harness-side map of acknowledged writes; RangeKeys on an open persister is compared with the harness-side flushed map.",
@@ -240,4 +242,29 @@ PROPS["C07"] = {
     "explanation": "Props/C07.v; correspondence: exact pool views (Keys, per-sender lists, counters) after every AddTx on eviction-enabled "
                    "configurations, i.e. the exact evicted set; monitors: an independent Go reference of the documented eviction procedure.",
     "assumptions": ["hash determines content", "container/heap replaced by 'least element of a strict total order' (proved; validated by exact comparison)"],
+}
+
+PROPS["C10"] = {
+  "runs": [{"component": "crash", "labels": None, "n_quick": 40, "n_thorough": 300}],
+  "extras": [{"component": "crash", "timeout": 900}],
+  "anchors": ["leveldb/leveldb.go", "leveldb/leveldbSerial.go", "leveldb/serialActions.go", "leveldb/common.go", "leveldb/batch.go"],
+  "exhaustive_claim": True,
+  "rule": "differential (component crash): every workload runs on the unmodified leveldb.NewDB / NewSerialDB over a recording storage.Storage (VerifSetOpenHook); "
+          "afterwards at EVERY recorded storage event (first open and reopen included) and every operation boundary crash images are built for the unsynced tail "
+          "none / torn at a seeded byte offset / all, written as plain files, reopened with the unmodified constructor and read with RangeKeys+Get. "
+          "exhaustive: every sequence of 3 (quick) / 4 (thorough) ops over {Put a 01, Put b 02, Put a 03, Remove a, Close+Reopen}, MaxBatchSize 1,2,3, DB and SerialDB (750 / 3750 histories); "
+          "random: 8-30 ops Put 60%/Remove 24%/Get,Has 4%/Close+Reopen (<=2)/bursts crossing a flush, 3-5 keys of 8, values {nil, empty, 1 byte, longer}, MaxBatchSize {1,2,3,5}; 1 history in 10 with "
+          "BatchDelaySeconds=1 and 1-2 timer flushes awaited with real sleeps (hazard detection + up to 4 retries). Per op the model must predict: recovered map at the boundary for tail none and tail all, "
+          "the sequence of distinct maps over the crash points inside the op for both tails, number of journal records and of journal fsyncs; torn-tail maps are fed back (inserted op 9) and judged by the model "
+          "against {recover (crash_drop n log)} over the op's micro-states. Monitors: harness-side flush bookkeeping from the property text (recovered map = state after exactly j flushes, completed <= j <= started; "
+          "diagnosis completed-flush-lost / partial-or-out-of-order / unreadable image), timer flush fsync'ed within BatchDelaySeconds+1s of the oldest pending acknowledgement. "
+          "extra: the same sweep on 40 / 500 seeded workloads (4 torn offsets per point in thorough), see extra_checks.rule. non-trivial = hits crash-inside-flush, torn-record-dropped, ... ",
+  "explanation": "PARTIAL. Props/C10.v proves the flush/sync/crash LOGIC on a log model (Persist/Crash.v: one journal record per db.Write, synced flags, crash = any suffix-loss of unsynced whole records, micro-step flush) "
+                 "for all histories, crash points, tails, MaxBatchSize, both persisters, with Sync as a model parameter (theorem refuted for Sync=false). The model is tied to /repo by exact agreement on every crash observable; "
+                 "fsync semantics, goleveldb journal/recovery, timer real-time bound are validated by crash images, not proved.",
+  "assumptions": ["PARTIAL: real fsync semantics, goleveldb's journal format/CRC/recovery/table+manifest code and the timer's real-time bound are validated (crash images reopened by the unmodified code), not proved",
+                  "crash-image semantics of the harness: unsynced bytes survive as a prefix in write order; Create/Remove/Rename/SetMeta(CURRENT) take effect when issued (no directory-fsync modelling, no reordering between files)",
+                  "db.Write of an empty batch does not touch the journal (goleveldb early return), transcribed in the model and checked by label 7",
+                  "the initial directory is fully synced (empty in all runs); sequential histories; the timer is the event Tick; storage write ERRORS are not injected",
+                  "reopening an existing directory makes its journal content durable (goleveldb recovery writes fsync'ed table+manifest): modelled by [reopen] = ld_sync, validated differentially on the Sync:false mutant"],
 }
